@@ -1,7 +1,7 @@
 SPECIFICATION Spec
 CONSTANTS
-  V = {"i1", "i2", "j1"}
-  M <- M3
+  V = {"i1", "i2", "j1", "l1", "l2"}
+  M <- M5
   B = {"b1", "b2"}
   Kinds = {"apply", "stub", "when"}
   Args = {7, 8}
